@@ -59,6 +59,8 @@ struct evws_connection {
 	struct evhttp *http_server;
 
 	struct evbuffer *incomplete_frames;
+	/* opcode of the first frame of the fragmented message being assembled */
+	int incomplete_type;
 	bool closed;
 };
 
@@ -69,6 +71,8 @@ enum WebSocketFrameType {
 	CLOSING_FRAME = 0x8,
 
 	INCOMPLETE_FRAME = 0x81,
+	/* the last fragment of a fragmented message */
+	CONTINUATION_FRAME = 0x80,
 
 	TEXT_FRAME = 0x1,
 	BINARY_FRAME = 0x2,
@@ -202,7 +206,7 @@ evws_force_disconnect_(struct evws_connection *evws)
  */
 static enum WebSocketFrameType
 get_ws_frame(unsigned char *in_buffer, size_t buf_len,
-	unsigned char **payload_ptr, size_t *out_len)
+	unsigned char **payload_ptr, size_t *out_len, int *out_opcode)
 {
 	unsigned char opcode;
 	unsigned char fin;
@@ -285,9 +289,12 @@ get_ws_frame(unsigned char *in_buffer, size_t buf_len,
 		return ERROR_FRAME;
 
 	if (opcode <= 0x3 && !fin) {
+		/* first or middle fragment; *out_type tells them apart */
+		*out_opcode = opcode;
 		return INCOMPLETE_FRAME;
 	}
-	return opcode;
+	*out_opcode = opcode;
+	return opcode == 0 ? CONTINUATION_FRAME : opcode;
 }
 
 
@@ -298,6 +305,7 @@ ws_evhttp_read_cb(struct bufferevent *bufev, void *arg)
 	unsigned char *payload;
 	enum WebSocketFrameType type;
 	size_t msg_len, in_len, header_sz;
+	int opcode = 0;
 	struct evbuffer *input = bufferevent_get_input(evws->bufev);
 
 	bufferevent_incref_and_lock_(evws->bufev);
@@ -307,7 +315,7 @@ ws_evhttp_read_cb(struct bufferevent *bufev, void *arg)
 			goto bailout;
 		}
 
-		type = get_ws_frame(data, in_len, &payload, &msg_len);
+		type = get_ws_frame(data, in_len, &payload, &msg_len, &opcode);
 		if (type == INCOMPLETE_DATA) {
 			/* incomplete data received, wait for next chunk */
 			goto bailout;
@@ -316,12 +324,25 @@ ws_evhttp_read_cb(struct bufferevent *bufev, void *arg)
 		evbuffer_drain(input, header_sz);
 		data = evbuffer_pullup(input, -1);
 
+		/* RFC 6455 5.4: the fragments after the first one are
+		 * continuation frames; one that continues nothing is a
+		 * protocol error */
+		if ((type == CONTINUATION_FRAME ||
+		     (type == INCOMPLETE_FRAME && opcode == 0)) &&
+		    evws->incomplete_frames == NULL)
+			type = ERROR_FRAME;
+
 		switch (type) {
 		case TEXT_FRAME:
 		case BINARY_FRAME:
+		case CONTINUATION_FRAME:
 			if (evws->incomplete_frames != NULL) {
 				/* we already have incomplete frames in internal buffer
-				 * and need to concatenate them with final one */
+				 * and need to concatenate them with final one; a final
+				 * continuation frame takes the type of the first
+				 * fragment */
+				if (type == CONTINUATION_FRAME)
+					type = evws->incomplete_type;
 				evbuffer_add(evws->incomplete_frames, data, msg_len);
 
 				data = evbuffer_pullup(evws->incomplete_frames, -1);
@@ -339,6 +360,7 @@ ws_evhttp_read_cb(struct bufferevent *bufev, void *arg)
 			 * postpone callback until all data arrives */
 			if (evws->incomplete_frames == NULL) {
 				evws->incomplete_frames = evbuffer_new();
+				evws->incomplete_type = opcode;
 			}
 			evbuffer_remove_buffer(input, evws->incomplete_frames, msg_len);
 			continue;
